@@ -19,8 +19,12 @@ abbrev Bytes := List UInt8
 inductive GoVal where
   | nil
   | bool (b : Bool)
-  | int (v : BitVec 64) | i8 (v : BitVec 8) | i16 (v : BitVec 16) | i32 (v : BitVec 32) | i64 (v : BitVec 64)
-  | uint (v : BitVec 64) | u8 (v : BitVec 8) | u16 (v : BitVec 16) | u32 (v : BitVec 32) | u64 (v : BitVec 64)
+  /-- Go's `int`, as the 64-bit sign extension of its 32- or 64-bit value (`GoVal.inWord`) -/
+  | int (v : BitVec 64)
+  | i8 (v : BitVec 8) | i16 (v : BitVec 16) | i32 (v : BitVec 32) | i64 (v : BitVec 64)
+  /-- Go's `uint`, zero-extended to 64 bits -/
+  | uint (v : BitVec 64)
+  | u8 (v : BitVec 8) | u16 (v : BitVec 16) | u32 (v : BitVec 32) | u64 (v : BitVec 64)
   | f32 (bits : BitVec 32) | f64 (bits : BitVec 64)
   | str (s : Bytes) | bytes (b : Bytes)
   /-- some `proto.Message` (opaque) -/
@@ -42,8 +46,13 @@ structure Params where
   encryptedFlag : Nat
   /-- `PTypePacket` -/
   ptypePacket : Nat
-  /-- bits of `int`/`uint` -/
+  /-- bits of `int`/`uint` on the build under test (32 on GOARCH=386, 64 on amd64/arm64): the value
+  domain of the `int`/`uint` kinds (`GoVal.inWord`); the conversions themselves are `int64(v)` either way -/
   intSize : Nat
+  /-- `float64(f)` of a NaN float32 yields the canonical quiet NaN 0x7ff8000000000000 (what the gc
+  compiler's 386 back end produces) instead of keeping sign and payload (amd64/arm64 hardware).
+  Go leaves NaN conversion unspecified; the property only needs NaN ↦ NaN. -/
+  canonNaN : Bool
   /-- base handed to `strconv.FormatInt` by `BodyToString` -/
   fmtBase : Nat
   /-- base and bit size handed to `strconv.ParseInt` by `BodyToInt` -/
@@ -62,10 +71,14 @@ deriving Repr, DecidableEq
 def params : Params :=
   { errFlag := Gen.C07.pflagError, compressedFlag := Gen.C07.pflagCompressed,
     encryptedFlag := Gen.C07.pflagEncrypted, ptypePacket := Gen.C07.ptypePacket,
-    intSize := Gen.C07.intSize, fmtBase := Gen.C07.formatIntBase,
+    intSize := Gen.C07.intSize, canonNaN := false, fmtBase := Gen.C07.formatIntBase,
     parseBase := Gen.C07.parseIntBase, parseBits := Gen.C07.parseIntBits,
     varintBuf := Gen.C07.encodeInt64BufLen, uvarintBuf := Gen.C07.encodeUint64BufLen,
     bytesHasNil := Gen.C07.bodyToBytesHasNil, errnoFromBody := Gen.C07.errnoFromBody }
+
+/-- the parameters for a build of the given word size and NaN convention (announced by the harness
+in the first line of the op stream); everything read from the source stays as regenerated -/
+def archParams (bits : Nat) (canon : Bool) : Params := { params with intSize := bits, canonNaN := canon }
 
 /-! ### float32 → float64 -/
 
@@ -89,10 +102,29 @@ def widen (b : BitVec 32) : BitVec 64 :=
     else (e + 896, m * 2 ^ 29)
   BitVec.ofNat 64 (sign * 2 ^ 63 + em.1 * 2 ^ 52 + em.2)
 
+/-- the canonical quiet NaN -/
+def canonNaN64 : BitVec 64 := 0x7ff8000000000000#64
+
+def isNaN32 (b : BitVec 32) : Bool := b.toNat / 2 ^ 23 % 256 = 255 ∧ b.toNat % 2 ^ 23 ≠ 0
+
+/-- `float64(f)` on a build with the given NaN convention: identical to `widen` except that with
+`canon` every NaN becomes the one canonical quiet NaN -/
+def widenOn (canon : Bool) (b : BitVec 32) : BitVec 64 :=
+  if canon && isNaN32 b then canonNaN64 else widen b
+
+/-- the values of the word-sized kinds on a build with `bits`-bit `int`/`uint`: an `int` travels
+sign-extended to 64 bits, a `uint` zero-extended; every other kind is unconstrained -/
+def GoVal.inWord (bits : Nat) : GoVal → Bool
+  | .int v => decide (-(2 ^ (bits - 1) : Int) ≤ v.toInt ∧ v.toInt < (2 ^ (bits - 1) : Int))
+  | .uint v => decide (v.toNat < 2 ^ bits)
+  | _ => true
+
 /-! ### SetBody -/
 
-/-- `SetBody(val)`: every integer kind and bool become int64, float32 becomes float64 -/
-def setBody (v : GoVal) : Res GoVal :=
+/-- `SetBody(val)`: every integer kind and bool become int64 (`int64(v)`: sign extension for the
+signed kinds — `int` included, whatever its width — zero extension for the unsigned ones), float32
+becomes float64 -/
+def setBody (P : Params) (v : GoVal) : Res GoVal :=
   match v with
   | .int x => .ok (.i64 x)
   | .uint x => .ok (.i64 x)
@@ -103,7 +135,7 @@ def setBody (v : GoVal) : Res GoVal :=
   | .u16 x => .ok (.i64 (x.setWidth 64))
   | .u32 x => .ok (.i64 (x.setWidth 64))
   | .u64 x => .ok (.i64 x)
-  | .f32 b => .ok (.f64 (widen b))
+  | .f32 b => .ok (.f64 (widenOn P.canonNaN b))
   | .nil => .ok .nil
   | .bool b => .ok (.i64 (if b then 1 else 0))
   | .i64 x => .ok (.i64 x)
@@ -188,13 +220,13 @@ def bodyToInt (P : Params) (b : GoVal) : Res (BitVec 64) :=
   | _ => .panic
 
 /-- `BodyToFloat()`, result as float64 bits -/
-def bodyToFloat (b : GoVal) : Res (BitVec 64) :=
+def bodyToFloat (P : Params) (b : GoVal) : Res (BitVec 64) :=
   match b with
   | .i64 _ => .unmodelled  -- float64(int64): rounding
   | .f64 v => .ok v
   | .str _ => .unmodelled  -- strconv.ParseFloat
   | .bytes v =>
-    if v.length = 4 then .ok (widen (BitVec.ofNat 32 (getLE v)))
+    if v.length = 4 then .ok (widenOn P.canonNaN (BitVec.ofNat 32 (getLE v)))
     else if v.length = 8 then .ok (BitVec.ofNat 64 (getLE v))
     else .panic
   | _ => .panic
